@@ -9,7 +9,7 @@
             | pushref D <ci> <s> | mount D <ci|-> | preds D | bresolve <s> | bfetchref <s>
        D    = <mt> <dg> <sz>
    Seek case:
-     <id> S <content> <nmodes> (<chunk> <eof-with-data:0|1>)* <nops> (r <n> | s <off> <0|1|2> | c)*
+     <id> S <content> <prof:5 bits> <via:0 Fetch|1 blob FetchReference> <nmodes> (<chunk> <eof-with-data:0|1>)* <nops> (r <n> | s <off> <0|1|2> | c)*
        (the i-th response body behaves as mode i mod nmodes; r = ONE Read call with a buffer of n bytes)
    Request-grammar case (the formal [allowed] against the harness's endpoint table):
      <id> A <METHOD> <repo> <epkind> <arg> <digest> <mountd> <from> <ctype> <clen> <ra> <rb> <body>
@@ -164,8 +164,9 @@ let history toks =
 
 let seek toks =
   match toks with
-  | c :: nm :: rest ->
+  | c :: pb :: _via :: nm :: rest ->
     let content = str_of_hex c in
+    let ranged = pb.[1] = '1' in
     let t = ref rest in
     let next () = match !t with x :: r -> t := r; x | [] -> failwith "eol" in
     let nm = int_of_string nm in
@@ -181,8 +182,12 @@ let seek toks =
         let w = match next () with "0" -> SeekStart | "1" -> SeekCurrent | _ -> SeekEnd in
         SSeek (off, w)
       | _ -> SClose) in
+    (* without range support the client returns the plain body: only the reads of the script run *)
+    let ops = if ranged then ops else List.filter (fun o -> match o with SRead _ -> true | _ -> false) ops in
+    (* the reader's size is the size of the descriptor: Fetch's argument, or the one blob
+       FetchReference derives (RemoteRefine.blob_fetchref_hit: len content in every profile) *)
     let out = rsc_run modes content (rsc_open content (n_of_int (List.length content))) ops in
-    String.concat " | " (List.map (fun (rq, o) ->
+    String.concat " | " ((if ranged then "seeker" else "noseeker") :: List.map (fun (rq, o) ->
       (match rq with
        | [] -> "-"
        | _ -> String.concat "+" (List.map (fun (a, b) -> show_n a ^ "-" ^ show_n b) rq))
